@@ -497,7 +497,8 @@ def run(tier):
         "p1": lambda: probe(wd, "Pool_dev_partial.cfg", scfile, "DevPartialAdd", ["AtomicityP"], "probe_partial"),
         "p2": lambda: probe(wd, "Pool_dev_index.cfg", scfile, "DevSharedIndex", ["LookupExactP"], "probe_index"),
         "r": lambda: leg_r(wd, binary, PROP, "Pool_contract_edges.cfg", scens, "contract", rng, verdict, devs, accept=acc),
-        "t": lambda: leg_t(wd, binary, PROP, "c14", verdict, devs, histories=nh, steps=st, accept=acc, timeout=3000),
+        "t": lambda: leg_t(wd, binary, PROP, "c14", verdict, devs, histories=nh, steps=st, accept=acc, timeout=3000,
+                           extra_env={"VERIF_SCRIPTED": 6 if tier == "quick" else 36}),
     })
     ms, rr, tt = [res["m"]], [res["r"]], res["t"]
     probes = {"DevPartialAdd breaks AtomicityStrict": res["p1"], "DevSharedIndex breaks LookupExactStrict": res["p2"]}
